@@ -341,7 +341,7 @@ def main():
             run_batch(run, batch, "mutants/" + label)
     # 2b. garbage from a second station that claims to forward for a remote network, then a valid routed request through
     #     the genuine router: the answer has to go back through the station that forwarded the request
-    for i in range((400 if thorough else 60) // (run.shard[1] if thorough else 1)):
+    for i in range((16000 if thorough else 60) // (run.shard[1] if thorough else 1)):
         idx += 1
         snet = rng.choice([7, 7, 300])
         garbage = []
@@ -357,7 +357,7 @@ def main():
     # 2c. dialogues on a segmented answer: the device has started a segmented response, the next frame from the client is
     #     a (possibly corrupted) segment-ack, an abort, the request again, garbage - then silence
     big = confirmed(170, 14, [ctx(0, objid(8, DEV)), (R.OPEN, 1, 0, b""), ctx(0, b"\x4c"), (R.CLOSE, 1, 0, b"")], max_resp=0, sa=True)
-    for i in range((600 if thorough else 80) // (run.shard[1] if thorough else 1)):
+    for i in range((16000 if thorough else 80) // (run.shard[1] if thorough else 1)):
         idx += 1
         fol = []
         for _ in range(rng.randrange(1, 4)):
@@ -375,7 +375,7 @@ def main():
         run.case(("segdialogue", run.shard[0], i), sample={"segmented_answer_dialogue": [(d, o[:12]) for d, st, o in fol]}, sample_key=("segd", i < 1))
         run_batch(run, [big], "segmented-answer-dialogue", followups=fol, big_device=True)
     # 3. random octets at three layers
-    nrand = (3000 if thorough else 500) // (run.shard[1] if thorough else 1)
+    nrand = (80000 if thorough else 500) // (run.shard[1] if thorough else 1)
     for i in range(nrand):
         batch = []
         for _ in range(rng.randrange(1, 8)):
